@@ -176,12 +176,22 @@ macro_rules! per_type {
                 }
             }
             // ---- abs
-            let vx = loop {
-                let x = rng.real();
-                if x.abs() >= 1e-6 {
-                    break x;
+            // (the value is given exactly, so any non-zero magnitude is in the domain: one case in four takes a
+            // tiny one - around and below machine epsilon, down to the smallest sub-normal)
+            let tiny = rng.chance(0.25);
+            let vx = if tiny {
+                rng.sign() * [5e-324, 2.2250738585072014e-308, 1e-300, 1e-100, 1e-17, 5.551115123125783e-17, 1.1102230246251565e-16, 2.220446049250313e-16, 4.440892098500626e-16, 1e-12, 1e-9][rng.usize(11)]
+            } else {
+                loop {
+                    let x = rng.real();
+                    if x.abs() >= 1e-6 {
+                        break x;
+                    }
                 }
             };
+            if tiny {
+                ctx.class(&format!("abs:{}:tiny-{}", tname, if vx < 0.0 { "negative" } else { "positive" }));
+            }
             let px = gen_parts(rng, vx, order);
             let x: $T = mk(&px);
             let rx = to_ref(px.0, &px.1, &px.2, &px.3, order);
@@ -311,6 +321,63 @@ macro_rules! per_type {
                     ctx.skip("quotient rounded to a whole number");
                 }
             }
+            // ---- remainder with a LARGE quotient (beyond 16- and 32-bit whole numbers, up to 1e12): the
+            // truncated quotient is still trunc(fl(a/b)) - no noise band (a relative perturbation of the
+            // operands crosses many jumps), the exact floating-point formula is the reference
+            {
+                let band = rng.usize(4);
+                // the quotient is kept at least 1e-3 away from a whole number and below 1e12 (ulp 1e-4), so that
+                // the rounding of a/b cannot change its truncation and the exact float `%` agrees with the formula
+                let (vn2, vd2, q) = loop {
+                    let qmag = match band {
+                        0 => rng.log_uniform(4.0e4, 2.0e9),
+                        1 => rng.log_uniform(2.2e9, 4.2e9),
+                        2 => rng.log_uniform(4.3e9, 1.0e11),
+                        _ => rng.log_uniform(1.0e11, 1.0e12),
+                    };
+                    let vd2 = rng.sign() * rng.log_uniform(1e-4, 3.0);
+                    let vn2 = rng.sign() * qmag * vd2.abs();
+                    let q = vn2 / vd2;
+                    let fr = (q - q.trunc()).abs();
+                    if fr >= 1e-3 && fr <= 1.0 - 1e-3 {
+                        break (vn2, vd2, q);
+                    }
+                    ctx.skip("large quotient too close to a whole number");
+                };
+                let dq = q.trunc();
+                let pn = gen_parts(rng, vn2, order);
+                let pd = gen_parts(rng, vd2, order);
+                let n_: $T = mk(&pn);
+                let d_: $T = mk(&pd);
+                let rn = to_ref(pn.0, &pn.1, &pn.2, &pn.3, order);
+                let rd = to_ref(pd.0, &pd.1, &pd.2, &pd.3, order);
+                let forms: Vec<(&str, $T, RNum)> = vec![
+                    ("dd", &n_ % &d_, RNum::rem(&rn, &rd, &mut Noise::exact())),
+                    ("fd", vn2 % &d_, RNum::rem(&RNum::constant(vn2), &rd, &mut Noise::exact())),
+                    ("df", &n_ % vd2, RNum::rem(&rn, &RNum::constant(vd2), &mut Noise::exact())),
+                ];
+                for (form, got, want) in forms.iter() {
+                    ctx.eval(1);
+                    ctx.asserted(1);
+                    ctx.class(&format!("rem-large-quotient:{}:{}:{}", tname, form, ["beyond-2^15", "around-2^31..2^32", "beyond-2^32", "beyond-2^36"][band]));
+                    let ok = match got.to_rnum() {
+                        Ok(m) => {
+                            let vs = vn2.abs().max((dq * vd2).abs());
+                            let gs = rn.g.values().chain(rd.g.values()).fold(0.0f64, |a, x| a.max(x.abs())) * (1.0 + dq.abs());
+                            let hs = rn.h.values().chain(rd.h.values()).fold(0.0f64, |a, x| a.max(x.abs())) * (1.0 + dq.abs());
+                            let names: BTreeSet<String> = m.names().union(&want.names()).cloned().collect();
+                            (m.v - want.v).abs() <= 8.0 * f64::EPSILON * vs
+                                && names.iter().all(|a| (m.gd(a) - want.gd(a)).abs() <= 8.0 * f64::EPSILON * gs)
+                                && (!second || names.iter().all(|a| names.iter().all(|b| (m.hd(a, b) - want.hd(a, b)).abs() <= 8.0 * f64::EPSILON * hs)))
+                        }
+                        Err(_) => false,
+                    };
+                    if !ok {
+                        ctx.violation(&format!("C19|rem-large-quotient|{}|{}", tname, form), json!({"type": tname, "form": form, "a": n_.describe(), "b": d_.describe(), "a_value": fj(vn2), "b_value": fj(vd2),
+                            "a/b in floating point": fj(q), "truncated_quotient": dq, "observed": got.describe(), "expected_value": fj(want.v), "expected_grad": want.g.iter().map(|(k, v)| (k.clone(), fj(*v))).collect::<serde_json::Map<_, _>>()}));
+                    }
+                }
+            }
             // ---- Iterator::sum == left fold from zero
             let k = rng.usize(6);
             let items: Vec<$T> = (0..k).map(|_| { let v = rng.real(); mk(&gen_parts(rng, v, order)) }).collect();
@@ -427,10 +494,14 @@ fn run_number(ctx: &mut Ctx, rng: &mut Rng, idx: u64) {
         }
     }
     // abs
-    let vx = loop {
-        let x = rng.real();
-        if x.abs() >= 1e-6 {
-            break x;
+    let vx = if rng.chance(0.25) {
+        rng.sign() * [5e-324, 1e-300, 1e-17, 5.551115123125783e-17, 2.220446049250313e-16, 1e-12][rng.usize(6)]
+    } else {
+        loop {
+            let x = rng.real();
+            if x.abs() >= 1e-6 {
+                break x;
+            }
         }
     };
     let (x, rx) = mk(rng, vx);
@@ -542,6 +613,8 @@ impl Prop for C19 {
             v.push(format!("sign:{}:negative", t));
             v.push(format!("sign:{}:positive", t));
             v.push(format!("abs:{}:positive", t));
+            v.push(format!("abs:{}:tiny-positive", t));
+            v.push(format!("abs:{}:tiny-negative", t));
             for f in ["dd:own,own", "dd:ref,ref", "df:own", "fd:own", "fd:ref"] {
                 for s in ["pos/pos", "pos/neg", "neg/pos", "neg/neg"] {
                     v.push(format!("rem:{}:{}:{}", t, f, s));
@@ -559,6 +632,9 @@ impl Prop for C19 {
         for t in ["Dual", "Dual2"] {
             for f in ["dd", "fd", "df"] {
                 v.push(format!("rem-near-whole-quotient:{}:{}", t, f));
+                for b in ["beyond-2^15", "around-2^31..2^32", "beyond-2^32", "beyond-2^36"] {
+                    v.push(format!("rem-large-quotient:{}:{}:{}", t, f, b));
+                }
             }
         }
         for t in ["Dual", "Dual2"] {
@@ -572,10 +648,10 @@ impl Prop for C19 {
         tier.pick(1_000_000, 50_000_000)
     }
     fn rule(&self) -> String {
-        "Seeded random and boundary pairs (negative values, negative divisors, equal values, +-0, NaN for comparisons only) on Dual, Dual2 and the Number container: 12 comparison forms per pair against the float comparison; abs against sign-flip of value and all derivatives (exact); is_positive / is_negative / signum against the sign of the (non-zero) value, signum carrying no derivative; a % b in 10 operand/ownership forms against a - b*trunc(a/b) in reference AD (noise band); the same with a quotient a few ulps short of a whole number (0.3 % 0.1) against the exact floating-point formula; Iterator::sum against the explicit left fold from zero (exact); x+0, 0+x, x*1, 1*x against x (exact, and by ==); is_zero. distinct_nontrivial = one per generated case (each has fresh random values and variable lists).".into()
+        "Seeded random and boundary pairs (negative values, negative divisors, equal values, +-0, NaN for comparisons only) on Dual, Dual2 and the Number container: 12 comparison forms per pair against the float comparison; abs against sign-flip of value and all derivatives (exact); is_positive / is_negative / signum against the sign of the (non-zero) value, signum carrying no derivative; a % b in 10 operand/ownership forms against a - b*trunc(a/b) in reference AD (noise band); the same with a quotient a few ulps short of a whole number (0.3 % 0.1) against the exact floating-point formula, and with large quotients (beyond 2^15, around 2^31..2^32, beyond 2^32 and 2^36, at least 1e-3 away from a whole number) likewise; Iterator::sum against the explicit left fold from zero (exact); x+0, 0+x, x*1, 1*x against x (exact, and by ==); is_zero. distinct_nontrivial = one per generated case (each has fresh random values and variable lists).".into()
     }
     fn assumptions(&self) -> Vec<String> {
-        vec!["remainder cases with a/b within 1e-6 of an integer are regenerated (outside the formula's domain)".into(), "abs is not asserted within 1e-6 of zero".into()]
+        vec!["remainder cases with a/b within 1e-6 of an integer are regenerated (outside the formula's domain)".into(), "abs is asserted at exactly given values of any non-zero magnitude (down to the smallest sub-normal); never at zero".into()]
     }
     fn run_case(&mut self, ctx: &mut Ctx, phase: usize, idx: u64, rng: &mut Rng) {
         match phase {
